@@ -135,6 +135,28 @@ func runOne(id string, pc *propCheck, wp **World, root, verif, tier string, seed
 			}()
 			theWorld = *wp
 			resetCaches()
+			func() {
+				defer func() {
+					if e := recover(); e != nil {
+						fmt.Printf("NOTE the head of the build pipeline was not inlined: the inlined copy does not load (%v)\n", e)
+					}
+				}()
+				if dir, name, why := inlineBuildHead(*wp); dir != "" {
+					note := fmt.Sprintf("analysed after inlining the head of the build pipeline (%s) into its caller (scratch copy, type-checked again)", name)
+					nw := Load(dir)
+					fmt.Println("NOTE " + note)
+					if flattened != "" {
+						flattened += "; "
+					}
+					flattened += note
+					theWorld = nil
+					*wp = nw
+				} else if why != "" {
+					fmt.Printf("NOTE the head of the build pipeline is in a helper (%s) but was not inlined: %s\n", name, why)
+				}
+			}()
+			theWorld = *wp
+			resetCaches()
 			if dir, name, why := inlineBuildTail(*wp); dir != "" {
 				note := fmt.Sprintf("analysed after inlining the tail call of the build pipeline to %s (scratch copy, type-checked again)", name)
 				fmt.Println("NOTE " + note)
